@@ -114,7 +114,13 @@ def struct_implied(target):
             return False
         l, r = a[2], a[3]
         return l == ('g', 'ActPC') and isinstance(r, tuple) and r[0] == 'e' and r[1] == 'StructSeg'
-    return [p]
+
+    def q(a):
+        # implied fact (iv): an open structure stack always has a named
+        # ancestor (CodeSTRUCT rejects a free-standing unnamed structure and
+        # ENDSTRUCT recomputes the innermost named one from the stack)
+        return target[1] == 'pInnermostNamedStruct' and a[0] == 'nz' and a[1] == ('g', 'StructStack')
+    return [p, q]
 
 
 def rule_r2(chk, facts):
@@ -160,6 +166,31 @@ def rule_r2(chk, facts):
     chk.extra['head_deref_sites'] = nsites
 
 
+def filled_under_validsegs(P, g, v):
+    """local v is filled through &v by a callee whose every store through that
+    parameter is guarded by a ValidSegs membership test."""
+    found = False
+    for b, i, ln, n in g.nodes():
+        if n[0] != 'call':
+            continue
+        for ai, a in enumerate(n[2]):
+            if strip(a) == ('u', '&', v):
+                t = P.resolve(g.unit, callee_name(n) or '')
+                if t is None or ai >= len(t.params):
+                    return False
+                deref = ('u', '*', ('p', t.params[ai]['name']))
+
+                def want(a2):
+                    return a2[0] == 'nz' and mentions(a2[1], lambda m: var_is(m, {'ValidSegs'}))
+                for b3, i3, l3, m in t.nodes():
+                    if is_assign(m) and strip(m[2]) == deref:
+                        ok, w = t.guarded(b3, i3, lambda l: edge_has_atom(l, want))
+                        if not ok:
+                            return False
+                        found = True
+    return found
+
+
 def rule_r7(chk, facts):
     chk.rule('C03-R7', 'ActPC is given a non-constant value only from the segment selected by name (SetNSeg), '
              'from StructSaveSeg, or in RESTORE under a test that keeps it out of the structure pseudo segment '
@@ -197,6 +228,8 @@ def rule_r7(chk, facts):
                 pi = [p['name'] for p in f.params].index(rhs[1])
                 a = nocast(n2[2][pi])
                 if const_val(a) is not None and not (a[0] == 'e' and a[1] == 'StructSeg'):
+                    continue
+                if a[0] == 'l' and filled_under_validsegs(P, g, a):
                     continue
                 # segment found by name: guarded by a ValidSegs membership test
                 def want(a2):
